@@ -18,7 +18,7 @@ TMO = 10000
 
 
 class Scen:
-    def __init__(self, name, kind, bridges=None, herd=False, watchdog=None, labels=None):
+    def __init__(self, name, kind, bridges=None, herd=False, watchdog=None, labels=None, barrier=None):
         self.name = name
         self.kind = kind
         self.bridges = bridges                # full list installed with InstallBridgeListProfile (None: built-in default only)
@@ -26,6 +26,7 @@ class Scen:
         self.herd = herd
         self.watchdog = watchdog
         self.forced_labels = labels           # explicit label derivation function (for lock-forced schedules)
+        self.barrier = barrier                # delivery barrier: number of client handlers whose first Write waits for the others
         self.np = self.nc = self.na = self.nl = self.ni = 0
 
     def poll(self, t, sid, nat, clients=0, ptype="standalone"):
@@ -83,6 +84,8 @@ class Scen:
                 ev.append("I%d:%s@%d" % (e["k"], ";".join("%s=%s" % b for b in e["bridges"]) or "-", e["t"]))
         if self.watchdog:
             ev.append("W0:%d@0" % self.watchdog)
+        if self.barrier:
+            ev.append("D0:%d@0" % self.barrier)
         if not self.herd and not self.forced_labels:
             ev.append("Q0:1@0")   # sequenced mode: well-separated events cannot be reordered by a loaded machine
         br = ",".join("%s=%s" % b for b in self.bridges) if self.bridges is not None else "-"
@@ -286,8 +289,10 @@ def check_history(sc, obs):
             if fp not in lists[0]:
                 bad.append(("C02", "unknown-bridge-matched", "client C%d named unknown bridge %s but P%d got its offer" % (c["k"], fp, pk)))
             elif relay not in [b[fp] for b in lists if fp in b]:
-                bad.append(("C02", "wrong-relay-url", "P%d got relay %s, client C%d named bridge %s -> %s" % (
-                    pk, relay, c["k"], fp, [b.get(fp) for b in lists])))
+                earlier = [dict(e["bridges"]).get(fp) for e in sc.events if e["kind"] == "I" and e["t"] <= c["t"]] + [dict(sc.bridge_list()).get(fp)]
+                key = "relay-url-stale" if relay in earlier else "wrong-relay-url"
+                bad.append(("C02", key, "P%d got relay %s, client C%d named bridge %s, which the list installed at its request maps to %s%s" % (
+                    pk, relay, c["k"], fp, [b.get(fp) for b in lists], " (the address of an earlier list)" if key == "relay-url-stale" else "")))
             want_nat = c["nat"] if c["nat"] else "unknown"
             if cnat != want_nat:
                 bad.append(("C02", "wrong-client-nat", "P%d was told client NAT %s, client sent %s" % (pk, cnat, want_nat)))
@@ -311,6 +316,18 @@ def check_history(sc, obs):
                 bad.append(("C02", "answer-cross-wired", "C%d got answer %s; its offer went to P%d (sid %s) under which %s were posted" % (ck, a, got[ck], sid, posted)))
         if r in ("blocked",) or r.startswith("panic"):
             bad.append(("C04", "client-poll-" + r.split(":")[0], "client poll C%d did not complete: %s" % (ck, r)))
+        # the bridge check itself: a client naming a bridge of the list installed at its request (the default bridge when it
+        # names none) is not turned away as unknown, and one naming an absent bridge is
+        fp = DEFAULT_FP if c["fp"] == "-" else c["fp"]
+        cur = sc.lists_from(c["t"])[0]
+        if r and r != "blocked":
+            if fp in cur and r in ("http:500", "error"):
+                bad.append(("C02", "default-bridge-not-applied" if c["fp"] == "-" else "known-bridge-rejected",
+                            "client C%d named %s, which the installed list has, and was answered %s" % (ck, "no bridge (= the default bridge)" if c["fp"] == "-" else fp, r)))
+            if fp not in cur and r != "http:500":
+                bad.append(("C02", "unknown-bridge-accepted", "client C%d named bridge %s, absent from the installed list, and was answered %s" % (ck, fp, r)))
+        if ck in got and (r.startswith("err:") or r == "error" or (r.startswith("http:") and r != "http:500")):
+            bad.append(("C02", "client-response-garbled", "client C%d, whose offer was handed to P%d, received an undecodable response (%s)" % (ck, got[ck], r)))
     for pk in polls:
         r = obs.get("P%d" % pk, "")
         if r == "blocked" or r.startswith("panic") or r.startswith("err"):
@@ -424,6 +441,20 @@ def run_scenarios(ctx, scens, props, label):
         ctx.extra["vm_compute_crosschecked"] = ctx.extra.get("vm_compute_crosschecked", 0) + len(sample)
         for i in badidx:
             ctx.not_shown("extraction cross-check differs on " + sample[i][0][:300])
+    # the delivery herds once more in a process restricted to one P (sync.Pool and other per-P caches are then shared by
+    # all handlers): property predicates only
+    dh = [(sc, line) for sc, line in zip(scens, lines) if sc.kind == "delivery-herd"]
+    if dh:
+        env1 = dict(env, GOMAXPROCS="1")
+        rc, out1, err = vlib.run_impl(exe, [l for _, l in dh], args=["-test.run", "^TestVerifBrokerDriver$"], env=env1, timeout=600)
+        if rc != 0 or len(out1) != len(dh):
+            ctx.violation("driver-crash", "broker driver (GOMAXPROCS=1) died rc=%s: %s" % (rc, err[-800:]), dict(label=label, stderr=err[-3000:]))
+        else:
+            for (sc, line), o in zip(dh, out1):
+                ctx.count(line + " #gomaxprocs1", kind="delivery-herd-1p")
+                for prop, key, text in check_history(sc, parse_obs(o)):
+                    if prop in props:
+                        ctx.violation(key, "%s [%s, GOMAXPROCS=1]" % (text, sc.name), dict(label=label, scenario=sc.name, case=line, impl=o, gomaxprocs=1))
     ctx.extra["traces_validated_against_impl"] = ctx.extra.get("traces_validated_against_impl", 0) + len(mlines) // 2
     ctx.extra["traces_validated_against_array_heap_machine"] = ctx.extra.get("traces_validated_against_array_heap_machine", 0) + len(mlines) // 2
 
@@ -537,6 +568,31 @@ def scenarios(rng, tier):
             sc.poll(0, sid, "unrestricted"); sc.lock(300, 2400); sc.client(1000, "restricted", "{%s}" % fresh("o"), fp=B2[0][0])
             sc.install(1900, newlist); sc.answer(150, sid, fresh("ans"), after_poll=0)
             S.append(sc)
+        # more re-installations between matches for the same fingerprint: a bridge is dropped and later re-added with
+        # another address; the addresses of two bridges are swapped
+        FA, FB = B2[0][0], B2[1][0]
+        UA, UB = B2[0][1], B2[1][1]
+        D = (DEFAULT_FP, DEFAULT_URL)
+        sc = Scen(fresh("reinst"), "bridge-reinstall-readd", bridges=[(FA, UA), D])
+        t = 0
+        sids = []
+        def one(fp, t, mode="v"):
+            sid = fresh("sid"); sids.append(sid)
+            j = sc.poll(t, sid, "unrestricted")
+            sc.client(t + 300, rng.choice(["restricted", "unknown"]), "{%s}" % fresh("o"), fp=fp, mode=mode)
+            sc.answer(150, sid, fresh("ans"), after_poll=j)
+        one(FA, 0); sc.install(700, [D])                       # FA dropped
+        sc.client(1000, "restricted", "{%s}" % fresh("o"), fp=FA)   # unknown now
+        sc.install(1400, [(FA, "wss://bridge-a3.example/x"), D])     # re-added elsewhere
+        one(FA, 1700, "a"); one("-", 2400, "l")
+        S.append(sc)
+        sc = Scen(fresh("reinst"), "bridge-reinstall-swap", bridges=[(FA, UA), (FB, UB), D])
+        one(FA, 0); one(FB, 700, "a")
+        sc.install(1500, [(FA, UB), (FB, UA), D])
+        one(FA, 1800, "a"); one(FB, 2500)
+        sc.install(3200, [(FA, UA), (FB, UB), D])
+        one(FB, 3500); one(FA, 4200)
+        S.append(sc)
         # least loaded among several, mixed pools
         for _i in range(3):
             sc = Scen(fresh("load"), "least-loaded")
@@ -614,6 +670,22 @@ def scenarios(rng, tier):
             for j, sid in enumerate(sids):
                 if rng.random() < 0.8:
                     sc.answer(rng.randrange(0, 300), sid, fresh("ans"), after_poll=j)
+            S.append(sc)
+        # delivery herds: every client is matched with its own proxy and all client responses are delivered at the same
+        # time (slow connections: the first Write of every client handler waits for the others); answers of different
+        # lengths and contents; each client must receive exactly the answer posted for the poll that got ITS offer
+        for size, amp_share in ([(12, 1.0), (24, 0.6)] if tier == "quick" else [(12, 1.0), (24, 0.6), (48, 0.8), (32, 1.0)]):
+            sc = Scen(fresh("deliver"), "delivery-herd", herd=True, watchdog=20000, barrier=size)
+            sids = []
+            for j in range(size):
+                sid = fresh("sid"); sids.append(sid)
+                sc.poll(rng.randrange(0, 30), sid, "unrestricted", clients=rng.randrange(0, 3))
+            for j in range(size):
+                mode = "a" if rng.random() < amp_share else rng.choice(["v", "l"])
+                sc.client(300 + rng.randrange(0, 30), rng.choice(["restricted", "unknown", ""]), "{%s}" % fresh("o"), mode=mode)
+            for j, sid in enumerate(sids):
+                body = fresh("ans") + "z" + "".join(rng.choice("abcdefghijklmnopqrstuvwxy0123456789") for _ in range(rng.choice([0, 1, 7, 40, 300, 1500, 5000])))
+                sc.answer(rng.randrange(0, 200), sid, body, after_poll=j)
             S.append(sc)
         # timeout-boundary herds: clients arrive around the polls' expiry, answers around the clients' expiry
         for size in ([8] if tier == "quick" else [8, 24]):
